@@ -149,6 +149,9 @@ func (p *Subscribe) UnmarshalBinary(data []byte) error {
 		var f TopicFilter
 		b.get(&f.filter)
 		b.get(&f.options)
+		if b.err != nil {
+			break
+		}
 		p.filters = append(p.filters, f)
 		if b.i == len(data) {
 			break
